@@ -1,5 +1,7 @@
 import IpaVerif.Model.Util
 import IpaVerif.Model.ReportWire
+import IpaVerif.Model.ReportWireQuery
+import IpaVerif.Model.Hybrid
 /-! Line-protocol handlers for property C10 (model side). Import-free.
 
 Request grammar: see `harness/c10.rs`. The HPKE layer is replaced by the *ideal AEAD given by the log*
@@ -138,6 +140,68 @@ def infoNewResp (kid : Nat) (site : Bytes) (ts eps sens : Nat) : String :=
   | .err e => showErr e
   | .panic t => "panic:" ++ t
 
+/-! `c10.query`: the input phase of the real `Query::execute` per helper (`ReportWire.queryInput`), then the
+harness's rule about who is awaited. -/
+
+def parseChunkList (s : String) : Option (List Bytes) :=
+  if s = "-" then some [] else
+  (s.splitOn ",").mapM (fun c => if c = "e" then some [] else parseHexBytes c)
+
+/-- `err_str` of the harness with the `err ` prefix removed and spaces replaced -/
+def errTag (e : Err) : String := (((showErr e).drop 4).toString).replace " " "_"
+
+/-- the harness's `query_err_class` -/
+def showInput : InputOutcome → String
+  | .accepted rs => s!"accepted:{rs.length}"
+  | .ioErr (.invalidData e) => "err:Io:InvalidData:" ++ errTag e
+  | .ioErr .writeZero => "err:Io:WriteZero"
+  | .reportErr e => "err:InvalidHybridReport:" ++ errTag e
+  | .panic t => "panic:" ++ t
+
+def isAccepted : InputOutcome → Option (List PlainReport)
+  | .accepted rs => some rs
+  | _ => none
+
+/-- the report the three helpers hold replicated shares of (`x = x₁ ⊕ x₂ ⊕ x₃`, helper h holds `(x_h, x_{h+1})`,
+serialized left half first), as a record of the C01 specification -/
+def reconstruct (a b c : PlainReport) : Hybrid.Rec :=
+  let left (p : Bytes) : Nat := ofLe (p.take (p.length / 2))
+  let x (f : PlainReport → Bytes) : Nat := left (f a) ^^^ left (f b) ^^^ left (f c)
+  match a.info with
+  | .imp _ => { key := x (·.matchKey), bk := x (·.btt), v := 0 }
+  | .conv _ => { key := x (·.matchKey), bk := 0, v := x (·.btt) }
+
+def showHist (h : List Nat) : String :=
+  let nz := (List.range h.length).zip h |>.filter (·.2 != 0)
+  if nz.isEmpty then "-" else String.intercalate "," (nz.map (fun (i, v) => s!"{i}:{v}"))
+
+/-- what the protocol computes from the accepted reports: the C01 specification (`Hybrid.spec`) with the widths of
+`Query::execute` (BA8 breakdown keys, BA3 values, BA32 histogram values, 256 buckets) -/
+def histOf (rs : List (List PlainReport)) : String :=
+  match rs with
+  | [a, b, c] =>
+    let recs := (a.zip (b.zip c)).map (fun (x, y, z) => reconstruct x y z)
+    showHist (Hybrid.spec { bkW := Report.prodBkBits, vW := Report.prodVBits, hvW := 32, buckets := 2 ^ Report.prodBkBits } recs)
+  | _ => "?"
+
+def queryResp (labels : List Char) (outs : List InputOutcome) : String :=
+  let fmt (l : List String) : String :=
+    String.intercalate " " ((List.range l.length).zipWith (fun i o => s!"H{i + 1}={o}") l)
+  if labels.contains 'm' then
+    -- only the helpers whose body was built malformed are awaited; a model that thinks such a helper
+    -- accepts its input says so (and disagrees with any implementation response)
+    fmt (labels.zipWith (fun l o => if l == 'm' then showInput o else "peer") outs)
+  else
+    match outs.mapM isAccepted with
+    | some (rs :: rss) =>
+      -- all three helpers enter the protocol; with equally many reports it completes (C01's subject)
+      if rss.all (·.length == rs.length) then fmt (outs.map (fun _ => "ok")) ++ " hist=" ++ histOf (rs :: rss) else "judge"
+    | some [] => "bad-request"
+    | none =>
+      -- every helper fails on its own input: all report; a mix of failing and accepting helpers leaves the
+      -- accepting ones waiting for the others: not predicted
+      if outs.all (fun o => (isAccepted o).isNone) then fmt (outs.map showInput) else "judge"
+
 /-- `some response` if the request belongs to this property, else `none`. -/
 def handle (toks : List String) : Option String :=
   match toks with
@@ -159,6 +223,12 @@ def handle (toks : List String) : Option String :=
       let L ← parseTy ty
       let A := tableAEAD (← parseLog log)
       pure (streamResp A (← parseReg reg) L (← parseChunks chunks))).getD "bad-request"
+  | ["c10.query", sz, reg, log, labels, _, c1, c2, c3] => some <| (do
+      let A := tableAEAD (← parseLog log)
+      let r ← parseReg reg
+      let n ← sz.toNat?
+      let bodies ← [c1, c2, c3].mapM parseChunkList
+      pure (queryResp labels.toList (bodies.map (queryInput A r prodLayout n)))).getD "bad-request"
   | t :: _ => if t.startsWith "c10." then some "bad-request" else none
   | _ => none
 
@@ -235,6 +305,33 @@ def infoNewOracle (site : String) (impl : String) : Option Bool := do
   if s.any (· ≥ 128) || s.contains 0 then return impl == "err nonascii"
   pure (impl.startsWith "ok " && kv (impl.splitOn " ") "back" == some "same")
 
+/-- `c10.query`: from the labels (how each helper's body was built) and the response only.
+* nobody panics or hangs (`timeout`), whatever the body;
+* a helper that was handed a malformed body (label `m`) returns an error value;
+* when all three bodies are exactly `query_size` honest records (`vvv`) every helper completes;
+* bodies with honest records but too few / something behind them (`s`, `l`): error or completion, both clean;
+* a query that completes returns the histogram `EXP` of the request: the attribution (computed by the generator from
+  the plaintext reports it encrypted) of the first `query_size` reports present. -/
+def queryOracle (labels exp : String) (impl : String) : Option Bool := do
+  if crashed impl then return false
+  let fields := impl.splitOn " "
+  let hist := kv fields "hist"
+  let fields := fields.filter (fun f => !f.startsWith "hist=")
+  let vals ← fields.mapM (fun f => match f.splitOn "=" with
+    | [_, v] => some v
+    | _ => none)
+  let ls := labels.toList
+  if vals.length != 3 || ls.length != 3 then none
+  if vals.any crashed then return false
+  let someM := ls.contains 'm'
+  -- a completed query returns the histogram the generator expects from the reports it put into the bodies
+  if vals.all (· == "ok") && hist != some exp then return false
+  pure ((ls.zip vals).all (fun (l, v) =>
+    if l == 'm' then v.startsWith "err:"
+    else if someM then true
+    else if ls.all (· == 'v') then v == "ok"
+    else v == "ok" || v.startsWith "err:"))
+
 /-- Property oracle on (request, implementation response). -/
 def oracle (toks : List String) (impl : String) : Option String :=
   match toks with
@@ -255,6 +352,10 @@ def oracle (toks : List String) (impl : String) : Option String :=
   | ["c10.infonew", _, site, _, _, _] =>
       match infoNewOracle site impl with
       | some b => some (verdict b "accepted metadata does not survive to_bytes→from_bytes (or a clean site was refused)")
+      | none => some "unknown"
+  | ["c10.query", _, _, _, labels, exp, _, _, _] =>
+      match queryOracle labels exp impl with
+      | some b => some (verdict b "Query::execute panicked or hung on an input body, accepted a malformed body, failed on a valid one, or returned another histogram than that of the first query_size reports")
       | none => some "unknown"
   | ["c10.stream", _, _, _, _] =>
       some (verdict (!crashed impl) "the input path crashed or hung on a malformed length-delimited body")
